@@ -409,7 +409,10 @@ def plan(tier, seed):
     reorder = [("script", dict(skeleton="T4", script=[LA_("uj", "uj_steps", ["step2", "step1", "step3"])], extra_sym=["step1.user_time_spent", "step2.user_time_spent"])),
                ("script", dict(skeleton="T4", script=[LA_("step1", "jobs", ["jobA"]), LA_("step1", "jobs", ["jobA", "jobA"])])),
                ("script", dict(skeleton="T4", script=[LA_("uj", "uj_steps", ["step1", "step2", "step3", "step1"]), LA_("uj", "uj_steps", ["step1", "step2", "step3"])])),
-               ("script", dict(skeleton="T1", script=[LA_("up", "devices", ["dev", "dev"]), LA_("up", "devices", ["dev"])]))]
+               ("script", dict(skeleton="T1", script=[LA_("up", "devices", ["dev", "dev"]), LA_("up", "devices", ["dev"])])),
+               # lists emptied or reduced, then restored
+               ("script", dict(skeleton="T1", script=[LA_("up", "devices", []), LA_("up", "devices", ["dev"])])),
+               ("script", dict(skeleton="T4", script=[LA_("uj", "uj_steps", ["step2"]), LA_("uj", "uj_steps", ["step1", "step2", "step3"])]))]
     # mixed histories on T9: accepted edits interleaved with simulations (set/reset) and failing edits
     SIM = lambda *sc, **kw: dict(k="sim", script=list(sc), **kw)  # noqa
     FAIL = lambda o, q, v: dict(k="fail", obj=o, param=q, value=v)  # noqa
